@@ -315,9 +315,30 @@ def amplify_case(r):
     return g.ops
 
 
+def idle_keepalive_case(r):
+    """C10, keepalive clause: both ends with keepalive (interval 1 s or 5 s), active timeout 20 s, a loss-free
+    relay, no application data, steps 0.5 to 3 s apart for several minutes: nobody may time out."""
+    g = Gen(r)
+    kai = r.choice([1000, 5000])
+    g.ops.append("srvnew 4096 32 %d 2000000 2000000 1448 100000 1 %d 20000 0" % (r.randrange(2), kai))
+    g.ops.append("peer 0")
+    g.nonce()
+    g.ops.append("clinew 0 0 2000000 2000000 1448 100000 1 %d 20000 0" % r.choice([1000, 5000]))
+    for t in range(r.choice([90, 150])):
+        now = g.tick((500, 1000, 2000, 3000))
+        g.ops.append("clistep 0 %d" % now)
+        g.ops.append("pfwd 0 0 0 1")
+        g.nonce()
+        g.ops.append("srvstep %d" % now)
+        g.ops.append("pfwd 0 0 0 1")
+    return g.ops
+
+
 def timers_case(r):
     """Handshake and active timeouts: SYN / SYN-ACK lost 0..10 times, last frame at any time relative to steps,
     all step cadences, keepalive on or off, idle or busy connection."""
+    if r.random() < 0.15:
+        return idle_keepalive_case(r)
     g = Gen(r)
     ato = r.choice([3000, 5000, 20000])
     ka = r.randrange(2)
